@@ -462,12 +462,27 @@ def inline_new_closures(project, ref) -> int:
             f = g.parent
             if f is None or g.qualname in r or g.node not in f.node.body or g.node.decorator_list or g.vararg or g.kwarg or g.kwonly:
                 continue
-            if _single_exit(g) != "expr":
-                continue
+            kind_g = _single_exit(g)
             a = g.node.args
             if a.defaults or a.kw_defaults:
                 continue
-            expr = [s_ for s_ in g.node.body if isinstance(s_, ast.Return)][0].value
+            if kind_g == "expr":
+                expr = [s_ for s_ in g.node.body if isinstance(s_, ast.Return)][0].value
+            elif kind_g == "tail":
+                # straight-line `t = e1; u = e2(t); return r(t, u)`: the returned expression with the closure's own single-assignment temporaries substituted
+                body_g = _body(g)
+                env_g: Dict[str, ast.expr] = {}
+                ok_g = True
+                for st_ in body_g[:-1]:
+                    if isinstance(st_, ast.Assign) and len(st_.targets) == 1 and isinstance(st_.targets[0], ast.Name) and st_.targets[0].id not in env_g and st_.targets[0].id not in g.params:
+                        env_g[st_.targets[0].id] = _Subst(env_g).visit(copy.deepcopy(st_.value))
+                    else:
+                        ok_g = False
+                if not ok_g:
+                    continue
+                expr = _Subst(env_g).visit(copy.deepcopy(body_g[-1].value))
+            else:
+                continue
             if any(isinstance(n, ast.Name) and isinstance(n.ctx, ast.Store) for n in ast.walk(expr)):
                 continue
             uses = [n for n in ast.walk(f.node) if isinstance(n, ast.Name) and n.id == g.name and not any(n is x for x in ast.walk(g.node))]
